@@ -157,6 +157,44 @@ def search(maxlen):
     return n, None
 
 
+def stacked_caches():
+    """A cache applied to a callable that is itself a cached function is a cache of its own, with its own limit and
+    expiration: `cache(limit=3)(cache(f))` answers three keys without calling anything, whatever the inner cache keeps."""
+    now = [0.0]
+    C.monotonic = lambda: now[0]
+    calls = []
+
+    def f(x):
+        calls.append(x)
+        return ("v", x, len(calls))
+    outer = cache(limit=3)(cache(f))               # inner: default limit 1
+    for k in (1, 2, 3, 1, 2, 3):
+        outer(k)
+    if calls != [1, 2, 3]:
+        return f"cache(limit=3)(cache(f)) asked for keys 1, 2, 3, 1, 2, 3: f was called for {calls}; the outer cache holds three keys"
+    del calls[:]
+    keep = cache(limit=1)(cache(limit=1, expiration=5.0)(f))      # the outer one never expires
+    keep(7)
+    now[0] += 100.0
+    keep(7)
+    if calls != [7]:
+        return f"a non-expiring cache around an expiring one, asked again after 100 s: f was called for {calls}, expected one call"
+
+    class H:
+        @cache(limit=2)
+        @cache
+        def m(self, x):
+            calls.append(x)
+            return x
+    del calls[:]
+    h = H()
+    for k in (1, 2, 1, 2):
+        h.m(k)
+    if calls != [1, 2]:
+        return f"@cache(limit=2) @cache on a method, keys 1, 2, 1, 2: the method body ran for {calls}"
+    return None
+
+
 def overlapping_async():
     """The limit also holds for calls that overlap: `limit`+1 calls with distinct keys are in flight at once (the first key is
     evicted while its invocation still runs), they finish in any order - afterwards the evicted key is recomputed, and never
@@ -219,7 +257,7 @@ def main():
     n, fail = search(int(os.environ.get("C12_MAXLEN", "4")))
     if not fail:
         n += 8
-        p = overlapping_async()
+        p = overlapping_async() or stacked_caches()
         if p:
             fail = dict(problem=p)
     if not fail:
